@@ -32,9 +32,15 @@ package mux
 //@   loop 0: invariant 0 <= pos && pos <= len(payload)
 //@   loop 0: decreases len(payload) - pos
 //
+// The ANIM chunk: background colour (4 bytes, little endian) then loop count
+// (2 bytes), exactly the bytes assembleExtended writes for them.
 //@ func (d *Demuxer) parseANIM
-//@   property C05
+//@   property C05 C14
 //@   requires d != nil
+//@   modifies d
+//@   ensures result == nil ==> len(data) >= 6
+//@   ensures result == nil ==> d.bgColor == uint32(data[0]) | uint32(data[1])<<8 | uint32(data[2])<<16 | uint32(data[3])<<24
+//@   ensures result == nil ==> d.loopCount == int(data[4]) | int(data[5])<<8
 //
 //@ func (d *Demuxer) parseANMF
 //@   property C05 C14
